@@ -24,6 +24,7 @@ RULE = ("(1) stacks: every stack of 0..3 entries (quick; 0..4 thorough sample + 
         "cross-validated against contextlib.AsyncExitStack on the same histories. non-trivial = stack with >= 2 "
         "entries or a raising/suppressing entry, history with >= 2 unwinds; distinct = stack or history")
 RULE += (" Also: exits raising standard types (StopAsyncIteration, RuntimeError, KeyError, AttributeError, TypeError, GeneratorExit, Exception, BaseException), exits whose failure carries its own context chain or happens while re-raising, the block's exception object raised again after suppression, manager objects pushed without being entered, aclose() issued inside except/finally of an unrelated exception, managers that register a callback on the stack while being entered (enter succeeding or failing), callbacks registered with keywords named callback/self.")
+RULE += (' Also: exits answering an exception with an object whose truth value cannot be taken.')
 ASSUMPTIONS = ["nested async with/with statements of the running interpreter are the reference for routing",
                "__context__ chains are not compared"]
 EXHAUSTIVE_SUBSPACES = 'all 16842 stacks of <= 3 entries x block outcome; all histories of length <= 4 (thorough: 5) over 8 operations'
